@@ -385,6 +385,18 @@ func (c *regexpSimplifyChecker) allChars(e syntax.Expr) bool {
 	return true
 }
 
+// hasCharClassMeta reports whether any of the char arguments
+// would need escaping (or change meaning) inside a char class.
+func (c *regexpSimplifyChecker) hasCharClassMeta(e syntax.Expr) bool {
+	for _, a := range e.Args {
+		switch a.Value {
+		case "]", "[", "-", "^", `\`:
+			return true
+		}
+	}
+	return false
+}
+
 func (c *regexpSimplifyChecker) factorPrefixSuffix(alt syntax.Expr) bool {
 	// TODO: more forms of prefixes/suffixes?
 	//
@@ -426,7 +438,7 @@ func (c *regexpSimplifyChecker) factorPrefixSuffix(alt syntax.Expr) bool {
 
 func (c *regexpSimplifyChecker) walkAlt(alt syntax.Expr) {
 	// `x|y|z` -> `[xyz]`.
-	if c.allChars(alt) {
+	if c.allChars(alt) && !c.hasCharClassMeta(alt) {
 		c.score++
 		c.out.WriteString("[")
 		for _, e := range alt.Args {
